@@ -154,7 +154,10 @@ class Script:
         # encode_varstr the result
         return encode_varstr(result)
 
-    def evaluate(self, tx_obj, input_index):
+    def evaluate(self, tx_obj, input_index, allow_p2sh=True, allow_witness=True):
+        # allow_p2sh/allow_witness say whether the p2sh rule (BIP16) and the
+        # witness program rules (BIP141/BIP341) apply to the output being spent;
+        # each rule applies at most once
         # create a copy as we may need to add to this list if we have a
         # RedeemScript
         commands = self.commands[:]
@@ -197,12 +200,14 @@ class Script:
                 # OP_HASH160 <20 byte hash> OP_EQUAL this is the RedeemScript
                 # OP_HASH160 == 0xa9 and OP_EQUAL == 0x87
                 if (
-                    len(commands) == 3
+                    allow_p2sh
+                    and len(commands) == 3
                     and commands[0] == 0xA9
                     and isinstance(commands[1], bytes)
                     and len(commands[1]) == 20
                     and commands[2] == 0x87
                 ):
+                    allow_p2sh = False
                     redeem_script = encode_varstr(command)
                     # we execute the next three op codes
                     commands.pop()
@@ -222,7 +227,10 @@ class Script:
                     commands.extend(Script.parse(stream).commands)
                 # witness program version 0 rule. if stack commands are:
                 # 0 <20 byte hash> this is p2wpkh
-                if len(stack) == 2 and stack[0] == b"" and len(stack[1]) == 20:
+                if not allow_witness:
+                    pass
+                elif len(stack) == 2 and stack[0] == b"" and len(stack[1]) == 20:
+                    allow_witness = False
                     h160 = stack.pop()
                     stack.pop()
                     commands.extend(witness.items)
@@ -230,6 +238,7 @@ class Script:
                 # witness program version 0 rule. if stack commands are:
                 # 0 <32 byte hash> this is p2wsh
                 elif len(stack) == 2 and stack[0] == b"" and len(stack[1]) == 32:
+                    allow_witness = False
                     s256 = stack.pop()
                     stack.pop()
                     commands.extend(witness.items[:-1])
@@ -246,6 +255,7 @@ class Script:
                 # witness program version 1 rule. if stack commands are:
                 # 1 <32 byte hash> this is p2tr
                 elif len(stack) == 2 and stack[0] == b"\x01" and len(stack[1]) == 32:
+                    allow_witness = False
                     if len(witness) == 0:
                         print("stack in witness v1 empty")
                         return False
